@@ -311,20 +311,21 @@ func (a Amount) String() string {
 		return "NA"
 	}
 	// work with the unsigned magnitude so that the minimum int64 value,
-	// which has no positive counterpart, is also presented correctly.
-	p := uint64(intPow(10, a.exp)) //nolint:gosec
-	v := uint64(a.value)           //nolint:gosec
+	// which has no positive counterpart, is also presented correctly, and
+	// place the decimal separator in the digits themselves so that no power
+	// of ten needs to fit in 64 bits.
+	v := uint64(a.value) //nolint:gosec
 	s := ""
 	if a.value < 0 {
 		s = "-"
 		v = -v
 	}
-	v1 := v / p
-	v2 := v - (v1 * p)
-	//if v2 < 0 {
-	//	v2 = -v2
-	//}
-	return fmt.Sprintf("%s%d.%0*d", s, v1, a.exp, v2)
+	ds := strconv.FormatUint(v, 10)
+	if n := int(a.exp) + 1 - len(ds); n > 0 {
+		ds = strings.Repeat("0", n) + ds
+	}
+	i := len(ds) - int(a.exp)
+	return s + ds[:i] + "." + ds[i:]
 }
 
 // MinimalString provides the amount without any tailing 0s or '.'
